@@ -1,6 +1,9 @@
 import SimbodyModel.C25
 import SimbodyModel.C25_small
+import SimbodyModel.C25_machine
 import SimbodyProofs.C25_lemmas
+import SimbodyProofs.C25_machine_lemmas
+import SimbodyProofs.C25_det_lemmas
 import Mathlib.Tactic.Ring
 import Mathlib.Tactic.FieldSimp
 import Mathlib.Tactic.Linarith
@@ -360,6 +363,114 @@ theorem resolve_shape (own : AView) (ho : IsOwnerLayout own) (ops : List VOp) (h
     exact ⟨s, n⟩
   | none => exact ⟨rfl, rfl⟩
 
+/-- the store address of every in-range element of a legal view expression, whichever route `resolve` takes -/
+theorem resolve_addr (own : AView) (ops : List VOp) (hl : legalAll ops own.shape = true)
+    (i j : Nat) (hi : i < (resolve own ops).nr) (hj : j < (resolve own ops).nc) :
+    (resolve own ops).addr i j = own.addr (mapAll ops (i, j)).1 (mapAll ops (i, j)).2 := by
+  unfold resolve at hi hj ⊢
+  cases hv : own.applyAll ops with
+  | some w =>
+    rw [hv] at hi hj
+    obtain ⟨_, _, a⟩ := view_compose_all ops own w hv hl
+    exact a i j hi hj
+  | none => rfl
+
+theorem mapAll_append (ops : List VOp) (op : VOp) (p : Nat × Nat) : mapAll (ops ++ [op]) p = mapAll ops (op.map p) := by
+  induction ops with
+  | nil => rfl
+  | cons o rest ih => simp only [List.cons_append, mapAll, ih]
+
+theorem shapeOf_append (ops : List VOp) (op : VOp) (s : Nat × Nat) : shapeOf (ops ++ [op]) s = op.shape (shapeOf ops s) := by
+  induction ops generalizing s with
+  | nil => rfl
+  | cons o rest ih => simp only [List.cons_append, shapeOf, ih]
+
+theorem legalAll_append (ops : List VOp) (op : VOp) (s : Nat × Nat) :
+    legalAll (ops ++ [op]) s = (legalAll ops s && op.legal (shapeOf ops s)) := by
+  induction ops generalizing s with
+  | nil => simp [legalAll, shapeOf]
+  | cons o rest ih => simp only [List.cons_append, legalAll, shapeOf, ih, Bool.and_assoc]
+
+theorem negAll_append (ops : List VOp) (op : VOp) : negAll (ops ++ [op]) = xor (negAll ops) op.flipsSign := by
+  induction ops with
+  | nil => simp [negAll]
+  | cons o rest ih =>
+    simp only [List.cons_append, negAll, ih]
+    cases o.flipsSign <;> cases negAll rest <;> cases op.flipsSign <;> rfl
+
+/-- **a view of a view denotes the composed matrix (value level)**: element (i,j) read through `expr/op` is the
+element `op.map (i,j)` read through `expr` (negated if `op` is `negate`), for every store and every legal expression. -/
+theorem view_denotes {K : Type} [InvolutiveNeg K] [OfNat K 0] (s : Array K) (own : AView) (ho : IsOwnerLayout own)
+    (ops : List VOp) (op : VOp) (hl : legalAll (ops ++ [op]) own.shape = true) (i j : Nat)
+    (hi : i < (resolve own (ops ++ [op])).nr) (hj : j < (resolve own (ops ++ [op])).nc) :
+    rget s (resolve own (ops ++ [op])) i j =
+      (if op.flipsSign then -(rget s (resolve own ops) (op.map (i, j)).1 (op.map (i, j)).2)
+       else rget s (resolve own ops) (op.map (i, j)).1 (op.map (i, j)).2) := by
+  have hl' := hl
+  rw [legalAll_append, Bool.and_eq_true] at hl'
+  obtain ⟨hl1, hl2⟩ := hl'
+  obtain ⟨sh2, ng2⟩ := resolve_shape own ho (ops ++ [op]) hl
+  obtain ⟨sh1, ng1⟩ := resolve_shape own ho ops hl1
+  rw [shapeOf_append] at sh2
+  have hi2 : (i, j).1 < (op.shape (shapeOf ops own.shape)).1 := by rw [← sh2]; exact hi
+  have hj2 : (i, j).2 < (op.shape (shapeOf ops own.shape)).2 := by rw [← sh2]; exact hj
+  obtain ⟨r1, r2⟩ := map_in_range op _ hl2 (i, j) hi2 hj2
+  have r1' : (op.map (i, j)).1 < (resolve own ops).nr := by
+    have : (resolve own ops).nr = (shapeOf ops own.shape).1 := by rw [← sh1]
+    rw [this]; exact r1
+  have r2' : (op.map (i, j)).2 < (resolve own ops).nc := by
+    have : (resolve own ops).nc = (shapeOf ops own.shape).2 := by rw [← sh1]
+    rw [this]; exact r2
+  unfold rget
+  rw [resolve_addr own (ops ++ [op]) hl i j hi hj, resolve_addr own ops hl1 _ _ r1' r2', mapAll_append, ng2, ng1,
+    negAll_append]
+  cases negAll ops <;> cases op.flipsSign <;> simp
+
+/-- `~A` denotes the transposed matrix, a block denotes the sub-matrix, `-A` the negated matrix -/
+theorem view_denotes_transpose {K : Type} [InvolutiveNeg K] [OfNat K 0] (s : Array K) (own : AView) (ho : IsOwnerLayout own)
+    (ops : List VOp) (hl : legalAll (ops ++ [.transpose]) own.shape = true) (i j : Nat)
+    (hi : i < (resolve own (ops ++ [.transpose])).nr) (hj : j < (resolve own (ops ++ [.transpose])).nc) :
+    (denseOf s (resolve own (ops ++ [.transpose]))).el i j = (denseOf s (resolve own ops)).transpose.el i j := by
+  have := view_denotes s own ho ops .transpose hl i j hi hj
+  simpa [denseOf, Dense.transpose, VOp.flipsSign, VOp.map] using this
+
+theorem view_denotes_block {K : Type} [InvolutiveNeg K] [OfNat K 0] (s : Array K) (own : AView) (ho : IsOwnerLayout own)
+    (ops : List VOp) (i0 j0 m n : Nat) (hl : legalAll (ops ++ [.block i0 j0 m n]) own.shape = true) (i j : Nat)
+    (hi : i < (resolve own (ops ++ [.block i0 j0 m n])).nr) (hj : j < (resolve own (ops ++ [.block i0 j0 m n])).nc) :
+    (denseOf s (resolve own (ops ++ [.block i0 j0 m n]))).el i j = (denseOf s (resolve own ops)).el (i0 + i) (j0 + j) := by
+  have := view_denotes s own ho ops (.block i0 j0 m n) hl i j hi hj
+  simpa [denseOf, VOp.flipsSign, VOp.map] using this
+
+theorem view_denotes_negate {K : Type} [InvolutiveNeg K] [OfNat K 0] (s : Array K) (own : AView) (ho : IsOwnerLayout own)
+    (ops : List VOp) (hl : legalAll (ops ++ [.negate]) own.shape = true) (i j : Nat)
+    (hi : i < (resolve own (ops ++ [.negate])).nr) (hj : j < (resolve own (ops ++ [.negate])).nc) :
+    (denseOf s (resolve own (ops ++ [.negate]))).el i j = -((denseOf s (resolve own ops)).el i j) := by
+  have := view_denotes s own ho ops .negate hl i j hi hj
+  simpa [denseOf, VOp.flipsSign, VOp.map] using this
+
+/-- **`index()` as coded versus as documented** (column source): the address `getElt_(0) + eltSize*ix[k]` the C++
+computes equals the documented one exactly when the selected index is 0 or the source stride is 1 — the known
+finding `VectorBase.index.noncontiguous_source.equals_dense` as a statement about the model. -/
+theorem index_as_coded_iff (v : AView) (ix : List Nat) (k : Nat) :
+    v.indexAsCoded ix k = v.indexDocumented false ix k ↔ (ix.getD k 0 = 0 ∨ v.rs = 1) := by
+  simp only [AView.indexAsCoded, AView.indexDocumented, AView.addr, Bool.false_eq_true, if_false]
+  generalize ix.getD k 0 = x
+  constructor
+  · intro h
+    have h2 : x * v.rs = x * 1 := by omega
+    rcases Nat.eq_zero_or_pos x with hx | hx
+    · exact Or.inl hx
+    · exact Or.inr (Nat.eq_of_mul_eq_mul_left hx h2)
+  · rintro (h | h)
+    · subst h; simp
+    · rw [h]; simp
+
+/-- the concrete instance of the finding: `m.diag().index({1,3})` of a 4×5 column-ordered matrix addresses cells 1 and 3
+(elements (1,0), (3,0)) instead of cells 5 and 15 (elements (1,1), (3,3)) -/
+example : ((AView.ownerMatrix 4 5).diag.indexAsCoded [1, 3] 0, (AView.ownerMatrix 4 5).diag.indexAsCoded [1, 3] 1) = (1, 3) ∧
+    ((AView.ownerMatrix 4 5).diag.indexDocumented false [1, 3] 0, (AView.ownerMatrix 4 5).diag.indexDocumented false [1, 3] 1)
+      = (5, 15) := by decide
+
 /-- **write_through_view_changes_exactly_viewed**: writing `f i j` through a view whose elements live in
 pairwise distinct in-bounds store cells (true of every legal view of an owner: `view_injective`,
 `view_in_bounds`) leaves the store size unchanged, puts (the sign-adjusted) `f i j` into the cell of every viewed
@@ -494,6 +605,20 @@ theorem detN_two (a b c d : R) : detN 2 [[a, b], [c, d]] = (M22.mk a b c d).det 
 theorem detN_three (m : M33 R) :
     detN 3 [[m.a00, m.a01, m.a02], [m.a10, m.a11, m.a12], [m.a20, m.a21, m.a22]] = m.det := by
   simp [detN, dropNth, List.range, List.range.loop, M33.det]; ring1
+
+/-- **the recursive determinant where the C++ really recurses (M = 4)** is multiplicative and transpose-invariant;
+at M = 5, 6 the expansion of an upper-triangular matrix is the product of its diagonal -/
+theorem detN_four_mul (a b : Fin 16 → R) : detN 4 (lmul 4 4 (m4 a) (m4 b)) = detN 4 (m4 a) * detN 4 (m4 b) :=
+  detN_four_mul_lemma a b
+
+theorem detN_four_transpose (a : Fin 16 → R) : detN 4 (m4 a) = detN 4 (ltranspose 4 4 (m4 a)) :=
+  detN_four_transpose_lemma a
+
+theorem detN_triangular_5_6 (d1 d2 d3 d4 d5 d6 a b c e f g h i j k l m n o p : R) :
+    detN 5 [[d1, a, b, c, e], [0, d2, f, g, h], [0, 0, d3, i, j], [0, 0, 0, d4, k], [0, 0, 0, 0, d5]] = d1 * d2 * d3 * d4 * d5 ∧
+    detN 6 [[d1, a, b, c, e, l], [0, d2, f, g, h, m], [0, 0, d3, i, j, n], [0, 0, 0, d4, k, o], [0, 0, 0, 0, d5, p],
+            [0, 0, 0, 0, 0, d6]] = d1 * d2 * d3 * d4 * d5 * d6 :=
+  ⟨detN_five_triangular_lemma .., detN_six_triangular_lemma ..⟩
 
 /-- the packed symmetric determinant is the determinant of the full symmetric matrix -/
 theorem symmat33_det (s : S33 R) : s.det = s.toM33.det := by
@@ -693,5 +818,198 @@ lower-triangle elements (0,0) (1,0) (1,1) (2,0) ...) -/
 example : (List.range 3).flatMap (fun i => (List.range (i + 1)).map fun j => symIx 3 i j) = [0, 3, 1, 4, 5, 2] := by decide
 example : (List.range 4).flatMap (fun i => (List.range (i + 1)).map fun j => symIx 4 i j) = [0, 4, 1, 5, 7, 2, 6, 8, 9, 3] := by
   decide
+
+/-! ## Part IV — the executed object / view machine (`SimbodyModel/C25_machine.lean`)
+
+`step_inv` and `step_frame` (proved in `C25_machine_lemmas.lean`) are restated here; the write-through theorem is
+instantiated to what `step` actually does (`resolveExpr`, `writeRes`, `ownerStore`), and the in-place / producing
+operations are shown to store exactly the value of the dense reference operation. -/
+
+section machine
+set_option linter.unusedSectionVars false
+variable {K : Type} [Add K] [Sub K] [Mul K] [InvolutiveNeg K] [OfNat K 0]
+
+/-- every operation preserves "an owner's store has exactly the cells its layout addresses" -/
+theorem step_preserves_store_invariant [Div K] [OfNat K 1] (sc : Scal K) (st : St K) (op : Op K) (h : Inv st) :
+    match step sc st op with
+    | .ok st' _ _ => Inv st'
+    | _ => True := by
+  have := step_inv sc st op h
+  cases hs : step sc st op <;> simp only [hs, OutInv] at this ⊢ <;> first | exact this | trivial
+
+theorem init_state_invariant : Inv (initSt K) := inv_init
+
+/-- frame: handles an operation does not report are left exactly as they were; the number of handles is constant -/
+theorem step_frames_untouched [Div K] [OfNat K 1] (sc : Scal K) (st st' : St K) (op : Op K)
+    (res : List (String × Dense K)) (t : List Nat) (h : step sc st op = .ok st' res t) :
+    st'.size = st.size ∧ ∀ i : Nat, i ∉ t → st'[i]? = st[i]? := by
+  have := step_frame sc st op
+  rw [h] at this
+  exact this
+
+theorem layoutOf_isOwner (k : Kind) (ro : Bool) (nr nc : Nat) : IsOwnerLayout (layoutOf k ro nr nc) := by
+  unfold layoutOf
+  cases k
+  · cases ro
+    · exact Or.inl ⟨nr, nc, rfl⟩
+    · exact Or.inr (Or.inr (Or.inr ⟨nr, nc, rfl⟩))
+  · exact Or.inr (Or.inl ⟨nr, rfl⟩)
+  · exact Or.inr (Or.inr (Or.inl ⟨nc, rfl⟩))
+
+/-- what `resolveExpr` returns: the addressed owner exists, the view is `resolve` of its layout, and `legal` says the
+whole expression (handle recipe included) is legal on an owner -/
+theorem resolveExpr_spec (st : St K) (e : Expr) (r : Res) (h : resolveExpr st e = some r) :
+    ∃ ob, st[r.owner]? = some ob ∧ r.view = resolve ob.layout r.ops ∧
+      r.legal = (legalAll r.ops ob.layout.shape && ob.isOwner) := by
+  unfold resolveExpr at h
+  cases ho : st[e.obj]? with
+  | none => simp [ho] at h
+  | some o =>
+    simp only [ho] at h
+    generalize (if o.isOwner = true then e.obj else o.base) = b at h
+    cases hob : st[b]? with
+    | none => simp [hob] at h
+    | some ob =>
+      simp only [hob] at h
+      cases hx : elabX o.kind e.xs with
+      | none => simp [hx] at h
+      | some lk =>
+        obtain ⟨l, k⟩ := lk
+        simp only [hx, Option.some.injEq] at h
+        subst h
+        exact ⟨ob, hob, rfl, rfl⟩
+
+/-- **write-through, as executed**: for a legal resolved expression in a state satisfying the invariant, no write is
+dropped (every viewed cell is inside the store — `rset = setIfInBounds` is harmless only because of this), each
+viewed cell receives its value, and no other cell of the owner's store changes. -/
+theorem write_through_resolved (st : St K) (hinv : Inv st) (e : Expr) (r : Res) (hr : resolveExpr st e = some r)
+    (hleg : r.legal = true) (f : Nat → Nat → K) :
+    ∃ ob, st[r.owner]? = some ob ∧
+      (∀ i j, i < r.view.nr → j < r.view.nc → r.view.addr i j < ob.store.size) ∧
+      (writeView ob.store r.view f).size = ob.store.size ∧
+      (∀ i j, i < r.view.nr → j < r.view.nc →
+          (writeView ob.store r.view f).getD (r.view.addr i j) 0 = (if r.view.neg then -(f i j) else f i j)) ∧
+      (∀ i j, i < r.view.nr → j < r.view.nc → rget (writeView ob.store r.view f) r.view i j = f i j) ∧
+      (∀ a, (∀ i j, i < r.view.nr → j < r.view.nc → r.view.addr i j ≠ a) →
+          (writeView ob.store r.view f).getD a 0 = ob.store.getD a 0) := by
+  obtain ⟨ob, hob, hv, hl⟩ := resolveExpr_spec st e r hr
+  rw [hl, Bool.and_eq_true] at hleg
+  obtain ⟨hlegal, hown⟩ := hleg
+  have hlay : IsOwnerLayout ob.layout := layoutOf_isOwner _ _ _ _
+  have hsize : ob.store.size = ob.layout.nr * ob.layout.nc := hinv _ _ hob hown
+  have hinj : ∀ i j i' j', i < r.view.nr → j < r.view.nc → i' < r.view.nr → j' < r.view.nc →
+      r.view.addr i j = r.view.addr i' j' → i = i' ∧ j = j' := by
+    rw [hv]; intro i j i' j' a b c d e
+    exact view_injective ob.layout hlay r.ops hlegal i j i' j' a b c d e
+  have hin : ∀ i j, i < r.view.nr → j < r.view.nc → r.view.addr i j < ob.store.size := by
+    rw [hv, hsize]; intro i j a b
+    exact view_in_bounds ob.layout hlay r.ops hlegal i j a b
+  obtain ⟨w1, w2, w3⟩ := write_through_view_changes_exactly_viewed ob.store r.view f hinj hin
+  exact ⟨ob, hob, hin, w1, w2, fun i j a b => read_after_write ob.store r.view f hinj hin i j a b, w3⟩
+
+/-- after `writeRes` (what every in-place operation ends with) the destination reads back the dense value -/
+theorem writeRes_reads_back (st : St K) (hinv : Inv st) (e : Expr) (r : Res) (hr : resolveExpr st e = some r)
+    (hleg : r.legal = true) (d : Dense K) (m : Nat) :
+    ∃ ob', (writeRes st r d m)[r.owner]? = some ob' ∧
+      ∀ i j, i < r.view.nr → j < r.view.nc → rget ob'.store r.view i j = d.el i j := by
+  obtain ⟨ob, hob, _, _, _, hread, _⟩ := write_through_resolved st hinv e r hr hleg d.el
+  have hlt : r.owner < st.size := by
+    rcases Nat.lt_or_ge r.owner st.size with h | h
+    · exact h
+    · rw [Array.getElem?_eq_none h] at hob; simp at hob
+  refine ⟨{ ob with store := writeView ob.store r.view d.el, mag := m }, ?_, hread⟩
+  unfold writeRes
+  rw [hob]
+  simp [Array.set!, Array.getElem?_setIfInBounds, hlt]
+
+/-- **in-place unary operations store the dense reference value** (`fill zero sassign scale negip eadd esubfrom sdiv`
+are `unIP` with the corresponding `Dense` function) -/
+theorem unIP_refines (st st' : St K) (hinv : Inv st) (d : Expr) (f : Dense K → Dense K) (mag : Nat → Nat)
+    (res : List (String × Dense K)) (t : List Nat) (h : unIP st d f mag = .ok st' res t) :
+    ∃ rd ob', resolveExpr st d = some rd ∧ st'[rd.owner]? = some ob' ∧
+      ∀ i j, i < rd.view.nr → j < rd.view.nc → rget ob'.store rd.view i j = (f (denseRes st rd)).el i j := by
+  unfold unIP at h
+  split at h
+  · rename_i rd hrd
+    split at h
+    · simp at h
+    · rename_i hleg
+      dsimp only at h
+      split at h
+      · simp at h
+      · simp only [Outcome.ok.injEq] at h
+        obtain ⟨h1, _, _⟩ := h
+        subst h1
+        have hleg' : rd.legal = true := by simpa using hleg
+        obtain ⟨ob', ho', hr'⟩ := writeRes_reads_back st hinv d rd hrd hleg' (f (denseRes st rd)) _
+        exact ⟨rd, ob', hrd, ho', hr'⟩
+  · simp at h
+
+/-- **in-place binary operations store the dense reference value** (`copy`-into-view, `add sub emul rowscale colscale`
+are `binIP` with `Dense.add`, `Dense.sub`, …); source and destination may share the owner when disjoint -/
+theorem binIP_refines (st st' : St K) (hinv : Inv st) (d s : Expr) (f : Dense K → Dense K → Dense K)
+    (req : Res → Res → Bool) (mag : Nat → Nat → Nat) (res : List (String × Dense K)) (t : List Nat)
+    (h : binIP st d s f req mag = .ok st' res t) :
+    ∃ rd rs ob', resolveExpr st d = some rd ∧ resolveExpr st s = some rs ∧ st'[rd.owner]? = some ob' ∧
+      ∀ i j, i < rd.view.nr → j < rd.view.nc →
+        rget ob'.store rd.view i j = (f (denseRes st rd) (denseRes st rs)).el i j := by
+  unfold binIP at h
+  split at h
+  · rename_i rd rs hrd hrs
+    split at h
+    · simp at h
+    · rename_i hc
+      dsimp only at h
+      split at h
+      · simp at h
+      · simp only [Outcome.ok.injEq] at h
+        obtain ⟨h1, _, _⟩ := h
+        subst h1
+        have hleg' : rd.legal = true := by
+          simp only [Bool.or_eq_true, Bool.not_eq_true', Bool.and_eq_true, not_or] at hc
+          have := hc.1.1
+          cases hrl : rd.legal <;> simp_all
+        obtain ⟨ob', ho', hr'⟩ := writeRes_reads_back st hinv d rd hrd hleg' (f (denseRes st rd) (denseRes st rs)) _
+        exact ⟨rd, rs, ob', hrd, hrs, ho', hr'⟩
+  · simp at h
+
+/-- a freshly built owner store (construction, reallocating assignment, producers `mul plus minus smul deep`)
+reads back, through the owner's own layout, exactly the dense value it was built from -/
+theorem ownerStore_reads_back (k : Kind) (ro : Bool) (d : Dense K) (i j : Nat) (hi : i < d.nr) (hj : j < d.nc)
+    (hshape : (layoutOf k ro d.nr d.nc).shape = (d.nr, d.nc)) :
+    rget (ownerStore k ro d) (resolve (layoutOf k ro d.nr d.nc) []) i j = d.el i j := by
+  have hlay := layoutOf_isOwner k ro d.nr d.nc
+  have hnr : (resolve (layoutOf k ro d.nr d.nc) []).nr = d.nr := by
+    have := (resolve_shape _ hlay [] rfl).1
+    simp only [shapeOf, hshape, Prod.mk.injEq] at this; exact this.1
+  have hnc : (resolve (layoutOf k ro d.nr d.nc) []).nc = d.nc := by
+    have := (resolve_shape _ hlay [] rfl).1
+    simp only [shapeOf, hshape, Prod.mk.injEq] at this; exact this.2
+  unfold ownerStore
+  apply read_after_write
+  · intro a b a' b' h1 h2 h3 h4 e
+    exact view_injective _ hlay [] rfl a b a' b' h1 h2 h3 h4 e
+  · intro a b h1 h2
+    have := view_in_bounds _ hlay [] rfl a b h1 h2
+    simpa using this
+  · rw [hnr]; exact hi
+  · rw [hnc]; exact hj
+
+/-- the arithmetic / assignment operations of `step` are by definition the dense reference operations applied through
+`unIP` / `binIP` / `produce` (definitional unfoldings, listed so that `unIP_refines`, `binIP_refines`,
+`ownerStore_reads_back` can be read as statements about `step`) -/
+theorem step_is_dense_reference [Div K] [OfNat K 1] (sc : Scal K) (st : St K) (d s : Expr) (x : K) :
+    step sc st (.add d s) = binIP st d s Dense.add sameShape (· + ·) ∧
+    step sc st (.sub d s) = binIP st d s Dense.sub sameShape (· + ·) ∧
+    step sc st (.emul d s) = binIP st d s Dense.emul sameShape (fun a b => 2 * a * b) ∧
+    step sc st (.scale d x) = unIP st d (fun m => m.scale x) (fun m => m * sc.absNat x) ∧
+    step sc st (.negip d) = unIP st d Dense.neg id ∧
+    step sc st (.fill d x) = unIP st d (fun m => Dense.const m.nr m.nc x) (fun m => max m (sc.absNat x + 3)) ∧
+    step sc st (.zero d) = unIP st d (fun m => Dense.const m.nr m.nc 0) id ∧
+    step sc st (.eadd d x) = unIP st d (fun m => m.addScalar x) (fun m => m + sc.absNat x + 3) ∧
+    step sc st (.esubfrom d x) = unIP st d (fun m => m.subFromScalar x) (fun m => m + sc.absNat x + 3) := by
+  refine ⟨rfl, rfl, rfl, rfl, rfl, rfl, rfl, rfl, rfl⟩
+
+end machine
 
 end C25
